@@ -123,6 +123,10 @@ def depth_cap(p, quick):
         return 256 if quick else 512            # nested |(...) expansion is quadratic in memory (GC locked)
     if p.consumer in ("compose/comptime", "compose/compile-in-macro"):
         return 4096                             # input size is 500 x depth
+    if p.family == "form" and p.shape in ("plus-wide", "string-wide"):
+        return 131072                           # flat forms: every constant past the 65535th rescans the whole pool
+    if p.shape == "fiblist" and quick:
+        return 131072                           # 10^6 live fibers cost ~30 s per item
     return TOP
 
 
@@ -386,7 +390,7 @@ def main():
         calm = [w for w in work if w[0].key not in loud_keys]
         loud = [w for w in work if w[0].key in loud_keys]
         run.run(interleave(calm, nchunks), chunk=max(4, len(calm) // nchunks + 1), timeout=timeout, jobs=jobs)
-        run.run(loud, chunk=1, timeout=300, jobs=jobs)
+        run.run_isolated(loud, timeout=60 if quick else 300)
 
     rounds_small = [[d for d in depths if lo < d <= hi] for lo, hi in ((1, 16), (16, 128), (128, 1100), (1100, 4096))]
     for ds in rounds_small:
